@@ -138,9 +138,15 @@ impl<'r> Out<'r> {
             if self.rng.chance(1, 2) {
                 // comment line, optionally indented
                 self.opt_blank(2);
-                let n = self.rng.range(0, 8);
                 self.put(b"c");
-                for _ in 0..n { let c = *self.rng.pick(b" 0p-1x\tc\r"); self.put(&[c]); }
+                if self.rng.chance(1, 2) {
+                    let n = self.rng.range(0, 8);
+                    for _ in 0..n { let c = *self.rng.pick(b" 0p-1x\tc\r"); self.put(&[c]); }
+                } else {
+                    // any byte but the line end may follow the `c`
+                    let t = free_text(self.rng, b"\n", 40);
+                    self.put(&t);
+                }
                 self.put(b"\n");
             } else {
                 self.opt_blank(3);
@@ -262,14 +268,23 @@ pub fn gen_log(rng: &mut Rng, tmax: i64, ignore_unknown: bool) -> (Vec<u8>, Stri
     let mut lines: Vec<Vec<u8>> = vec![];
     let comment = |rng: &mut Rng| -> Vec<u8> {
         let mut l = b"c ".to_vec();
-        for _ in 0..rng.range(0, 6) { l.push(*rng.pick(b"abc 01-vs")); }
+        if rng.chance(1, 2) {
+            for _ in 0..rng.range(0, 6) { l.push(*rng.pick(b"abc 01-vs")); }
+        } else {
+            l.extend(free_text(rng, b"\n", 40));
+        }
         l
     };
     let unknown = |rng: &mut Rng| -> Vec<u8> {
         match rng.below(4) {
             0 => b"".to_vec(),
             1 => b"c".to_vec(),
-            2 => b"x yz".to_vec(),
+            2 => {
+                // an ignored line: any first byte that does not open a known line kind
+                let mut l = vec![*rng.pick(b"xqXz#%\x80\xff\x8a09-")];
+                l.extend(free_text(rng, b"\n", 40));
+                l
+            }
             _ => b"vv 1 0".to_vec(),
         }
     };
@@ -434,7 +449,7 @@ pub fn gen_case(rng: &mut Rng, opt: &str, _thorough: bool) -> String {
         *rng.pick(&fams)
     };
     let fmt: &'static str = *rng.pick(&["cnf", "cnf", "wcnf", "gcnf"]);
-    let mut case = Case { fmt: fmt.into(), ty: ty.into(), cfg, k: None, ls: false, data: vec![], expect: None, tok: None, ns: None };
+    let mut case = Case { fmt: fmt.into(), ty: ty.into(), cfg, k: None, ls: false, lsb: false, data: vec![], expect: None, tok: None, ns: None };
     match family {
         "layout" => {
             let doc = gen_doc(rng, fmt, tmax, cfg);
@@ -529,6 +544,7 @@ pub fn gen_case(rng: &mut Rng, opt: &str, _thorough: bool) -> String {
             let r = render(rng, &doc, false);
             case.data = r.bytes;
             case.ls = true;
+            case.lsb = rng.chance(1, 3);
         }
         "log" | "logmut" | "logfault" => {
             case.fmt = "log".into();
@@ -557,7 +573,7 @@ pub fn fault_sweep(rng: &mut Rng) -> Vec<String> {
     let doc = gen_doc(rng, fmt, tmax, cfg);
     let r = render(rng, &doc, false);
     (0..=r.bytes.len())
-        .map(|k| Case { fmt: fmt.into(), ty: ty.into(), cfg, k: Some(k), ls: false, data: r.bytes.clone(), expect: None, tok: None, ns: None }.line())
+        .map(|k| Case { fmt: fmt.into(), ty: ty.into(), cfg, k: Some(k), ls: false, lsb: false, data: r.bytes.clone(), expect: None, tok: None, ns: None }.line())
         .collect()
 }
 
